@@ -46,3 +46,78 @@ def parse_nwchem_reference(text):
                 for i, l in enumerate(ls):
                     res[el].append((l, exps, [[r[i]] for r in rows]))
     return res
+
+
+# ------------------------------------------------------------------------------------------------
+# writers: model -> text, and the parse a correct reader must return
+# ------------------------------------------------------------------------------------------------
+# model: list of (element, [shell, ...]) in file order; shell = {"letters": "S"|"P"|...|"SP",
+#        "exps": [token, ...], "cols": [[token per column] per primitive]}
+def _rows(shell, indent, sep):
+    out = []
+    for e, row in zip(shell["exps"], shell["cols"]):
+        out.append(" " * indent + e + "".join(" " * sep + c for c in row))
+    return out
+
+
+def write_nwchem(model, layout):
+    """layout: header (list of lines), indent, sep, gap (spaces between element and letter), comments (bool),
+    blanks (bool), end (bool)."""
+    lines = list(layout.get("header", []))
+    for el, shells in model:
+        if layout.get("comments"):
+            lines.append("#BASIS SET: (%ds) -> [%ds]" % (len(shells), len(shells)))
+        for s in shells:
+            lines.append(el + " " * layout.get("gap", 4) + s["letters"])
+            lines += _rows(s, layout.get("indent", 4), layout.get("sep", 6))
+            if layout.get("blanks"):
+                lines.append("")
+    if layout.get("end", True):
+        lines.append("END")
+    return "\n".join(lines) + "\n"
+
+
+def write_gbs(model, layout):
+    lines = list(layout.get("header", []))
+    for n, (el, shells) in enumerate(model):
+        lines.append(el + " " * layout.get("gap", 5) + "0")
+        for s in shells:
+            lines.append("%s   %d   1.00" % (s["letters"], len(s["exps"])))
+            lines += _rows(s, layout.get("indent", 6), layout.get("sep", 7))
+        if n < len(model) - 1 or layout.get("end", True):
+            lines.append("****")
+        if layout.get("blanks"):
+            lines.append("")
+    return "\n".join(lines) + "\n"
+
+
+def _split(shell):
+    """One written shell -> list of (l, [exps], [[coeff per column] per primitive]) with SP split."""
+    exps = [tofloat(t) for t in shell["exps"]]
+    cols = [[tofloat(t) for t in row] for row in shell["cols"]]
+    letters = shell["letters"].lower()
+    if len(letters) == 1:
+        return [(ANGMOM[letters], exps, cols)]
+    return [(ANGMOM[c], exps, [[row[i]] for row in cols]) for i, c in enumerate(letters)]
+
+
+def expected_nwchem(model):
+    out = {}
+    for el, shells in model:
+        for s in shells:
+            out.setdefault(el, []).extend(_split(s))
+    return out
+
+
+def expected_gbs(model):
+    """Gaussian94: consecutive shells of one element block with equal l and equal exponents form one generalized shell."""
+    out = {}
+    for el, shells in model:
+        lst = out.setdefault(el, [])
+        for s in shells:
+            for (l, exps, cols) in _split(s):
+                if lst and lst[-1][0] == l and lst[-1][1] == exps and len(s["letters"]) == 1 and not lst[-1][3]:
+                    lst[-1] = (l, exps, [a + b for a, b in zip(lst[-1][2], cols)], False)
+                else:
+                    lst.append((l, exps, cols, len(s["letters"]) > 1))
+    return {el: [(l, e, c) for (l, e, c, _) in lst] for el, lst in out.items()}
